@@ -79,6 +79,18 @@ theorem tokenfee_guards_pinned : Irismod.Gen.PureTokenFee.guards =
      "msgServer.SwapFeeToken: m.k.blockedAddrs[msg.Receiver]",
      "msgServer.SwapFeeToken: feePaid, feeGot, err := m.k.SwapFeeToken(ctx, msg.FeePaid, sender, recipient); err != nil"] := rfl
 
+/-- every statement of these functions executed for its effect — a call whose result is dropped (store and bank
+writes, queue moves, hooks) or a write to a record field — with its nesting depth, in source order: a write that is
+dropped, duplicated, reordered or moved into or out of a branch breaks this -/
+theorem tokenfee_effects_pinned : Irismod.Gen.PureTokenFee.effects =
+    ["EditToken: d1 token.MaxSupply = maxSupply",
+     "EditToken: d1 token.Name = name",
+     "EditToken: d2 metadata.Description = name",
+     "EditToken: d2 k.bankKeeper.SetDenomMetaData(ctx, metadata)",
+     "EditToken: d1 token.Mintable = mintable.ToBool()",
+     "EditToken: d0 k.setToken(ctx, token)",
+     "Keeper.BurnToken: d0 k.AddBurnCoin(ctx, coinBurnt)"] := rfl
+
 /-- token: the community tax of a fee (`feeHandler`) is the model's `taxOf`, as a coin of the fee's denomination -/
 theorem token_taxOf_eq_translation (d : String) (fee : Nat) (rate : Dec) :
     Irismod.Gen.PureTokenFee.feeHandler_communityTaxCoin_1 ⟨d, fee⟩ rate =
